@@ -89,6 +89,7 @@ pub fn scenario(seed: u64, threads: usize, max_operands: usize, max_ops: usize, 
                     | Op::Convert { j }
                     | Op::Derive { j, .. }
                     | Op::SerdeRoundTrip { j }
+                    | Op::EvalBurst { j, .. }
                     | Op::Drop { j } => *j %= 2,
                     _ => {}
                 }
